@@ -1,6 +1,6 @@
 (* C14 — encodings are self-delimiting; consume-all entry points are exact. *)
 Require Import Scale.Bytes Scale.Eres Scale.Prog Scale.ProgFacts Scale.ProgMore Scale.Chunks Scale.Monitors Scale.CompactImpl
-  Scale.CompactSpec Scale.CompactProofs Scale.CompactTheorems Scale.Utf8 Scale.Codec Scale.CodecEnc Scale.CodecDec Scale.CodecRt Scale.CodecMore.
+  Scale.CompactSpec Scale.CompactProofs Scale.CompactTheorems Scale.Utf8 Scale.Codec Scale.CodecEnc Scale.CodecDec Scale.CodecRt Scale.CodecMore Scale.TraceEq Scale.Depth Scale.Mem Scale.Rec Scale.RecRt.
 
 Theorem C14_locality : forall A (p : prog A) known x bs v r,
   runo p known bs = OOk v r -> runo p known (bs ++ x) = OOk v (r ++ x).
@@ -32,8 +32,16 @@ Example C14_nonvacuous :
   runo (dec (TOption (TPrim 2))) true [x01; x05] = OErr [x05].
 Proof. repeat split; vm_compute; reflexivity. Qed.
 
+(* the same for recursive derived types, with any recursion budget *)
+Theorem C14_recursive_strict_prefix_fails : forall d F v bs pre suf known,
+  wf_rdef d = true -> ridx_ok d = true -> renc F d v = EOk bs ->
+  bs = pre ++ suf -> suf <> [] ->
+  forall F' v' r, (F <= F')%nat -> runo (rdec F' d) known pre <> OOk v' r.
+Proof. exact rec_strict_prefix_fails. Qed.
+
 Print Assumptions C14_locality.
 Print Assumptions C14_strict_prefix_fails.
 Print Assumptions C14_concat_decodes_in_order.
 Print Assumptions C14_decode_all_exact.
 Print Assumptions C14_decode_all_rejects_trailing.
+Print Assumptions C14_recursive_strict_prefix_fails.
